@@ -4,7 +4,7 @@ from fractions import Fraction as Fr
 
 from .. import rd_euler, rd_eval, rd_law, rd_model
 from ..vlib import util
-from ..vlib.report import Report
+from ..vlib.report import MachineryError, Report
 from . import c07
 
 PROP = "C02"
@@ -71,6 +71,20 @@ def run(tier, selftest=False, only=None):
             res = rd_euler.check_laws(rep, m, tr[1], lw["laws"], "euler")
             if res == "ok" and lw["laws"]:
                 nl += 1
+        # "all time steps": a step so coarse that amounts overshoot zero is still an explicit Euler step - the update is
+        # linear in the rates, so every conservation law holds to rounding whatever the step
+        trc = rd_euler.trajectories(ms, 12, dt=0.75, every=1)
+        nneg = 0
+        for m, lw, tr in zip(ms, laws, trc):
+            rep.case(["euler-coarse", m.key()], nontrivial=len(lw["laws"]) > 0)
+            if tr[0] != "ok":
+                rep.violation("euler", "euler:coarse-step-run-" + tr[0], {"model": m.strengths_dict(), "outcome": list(tr)})
+                continue
+            if rd_euler.check_laws(rep, m, tr[1], lw["laws"], "euler-coarse-step") == "ok" and (tr[1] < 0).any():
+                nneg += 1
+        rep.extra["euler_coarse_step_trajectories_with_overshoot"] = nneg
+        if nneg == 0:
+            raise MachineryError("no coarse-step Euler trajectory overshot zero: the regime was not exercised")
         rep.traces += len(ms)
         rep.extra["euler_trajectories"] = len(ms)
         rep.extra["euler_trajectories_with_laws_ok"] = nl
